@@ -819,12 +819,12 @@ func Calculate(in *Doc, env *Env) (*Out, error) {
 		}
 	}
 	k.presentLines(in)
-	// document discounts / charges: lowered to the base's or the currency's decimals
+	// document discounts / charges: lowered to the currency's decimals (or the base's, when it has more)
 	for i := range o.Discounts {
 		e := c
 		if in.Discounts[i].Base != nil {
-			if b, ok := dec.Parse(*in.Discounts[i].Base); ok {
-				e = b.E
+			if b, ok := dec.Parse(*in.Discounts[i].Base); ok && b.E > e {
+				e = b.E // never fewer decimals than the currency
 			}
 		}
 		if o.Discounts[i].E > e {
@@ -834,7 +834,7 @@ func Calculate(in *Doc, env *Env) (*Out, error) {
 	for i := range o.Charges {
 		e := c
 		if in.Charges[i].Base != nil {
-			if b, ok := dec.Parse(*in.Charges[i].Base); ok {
+			if b, ok := dec.Parse(*in.Charges[i].Base); ok && b.E > e {
 				e = b.E
 			}
 		}
